@@ -186,8 +186,8 @@ impl ConnDriver {
             stop_on_parse_error: false,
             log: vec![],
         };
-        // every 24th connection is also stepped on the concrete-buffer model (lean/MicroHttp/Conn00.lean)
-        let on = rec.n_conn_new % 24 == 0;
+        // every 64th connection is also stepped on the concrete-buffer model (lean/MicroHttp/Conn00.lean)
+        let on = rec.n_conn_new % 64 == 0;
         rec.n_conn_new += 1;
         d.emit(rec, format!("l00 {}", if on { 1 } else { 0 }), "ok".into());
         d.emit(rec, format!("conn new {}", limit), "ok".into());
